@@ -285,6 +285,8 @@ def large_instances(h, w, rich):
     grids = []
     if (h, w) in _LISTABLE:
         roots = [far, ((h - 1) // 2, (w - 1) // 2), (h - 1, 0) if h > 1 and w > 1 else (0, 0)]
+        if (h, w) == (4, 4):
+            roots.append((0, w - 1))  # four compasses: 7153 clue-free divisions
         free = [[y, x, -1, -1, -1, -1] for y, x in roots]
         yield inst(free)
         divs = clued_divisions(h, w, free)
